@@ -13,6 +13,7 @@ MODULES = {
     "C04": "harness.c04_preserve",
     "C03": "harness.c03_arch",
     "C14": "harness.c14_actions",
+    "C15": "harness.c15_obs",
 }
 
 TECH = "symbolic execution of the real Python functions on z3-backed proxies (re-execution path exploration); each obligation decided per path by z3 as pc ∧ assumptions ∧ ¬obligation; sat models replayed on the real code"
@@ -69,6 +70,11 @@ CLAIMED = {
         "level_note": NOTE + "; that a real network's output activation delivers the assumed range, MADDPG/MATD3/IPPO/bandit action selection and MultiDiscrete/MultiBinary sampling (C16) are outside this check",
         "technique": TECH,
     },
+    "C15": {
+        "level_text": "bounded symbolic verification of the real preprocess_observation / obs_to_tensor / maybe_add_batch_dim / apply_image_normalization / get_vect_dim / concatenate_tensors, IPPO.get_action's routing through preprocess_observation and assemble/disassemble_homogeneous_outputs, and stack_critic_observations: for ALL observation values over Box of rank 0-4, images with per-element, unit and infinite bounds, Discrete(3), Discrete(1), MultiDiscrete, MultiBinary, Dict and Tuple of these, given as ndarray, tensor or number, unbatched, batch 1, batch 2 and (steps, envs) shaped: the result is a float tensor of shape (number of observations,) + network input shape, rows are the one-hot / min-max scaled / identity image of their observation, row i equals preparing observation i alone, get_vect_dim is the number of stacked observations, every homogeneous agent/env gets back the policy outputs computed from its own observation, and the centralised critic input holds agent j's observation at position j",
+        "level_note": NOTE + "; that a real network's greedy action/value is batch-independent (torch kernels) is outside: only the routing around the network is decided",
+        "technique": TECH,
+    },
     "C17": {
         "level_text": "bounded symbolic verification of the real PPO.learn / IPPO.learn up to the minibatch loop: for all rewards, values, done flags, bootstrap values, log-probs, gamma, lambda at rollout shapes T<=3(5), envs<=2(3), agents<=2(3), the flattened rows handed to the minibatch loop carry, for every (agent, step, env), that triple's observation, action, old log-prob, old value and the GAE advantage/return defined by the statement's recursion (up to a permutation of rows)",
         "level_note": NOTE,
@@ -85,4 +91,4 @@ NOT_APPLICABLE = {
 
 # designed in DESIGN.md §5 but the check is not built/registered yet (moves to CLAIMED when it lands)
 PENDING = {pid: "solver-based check designed (DESIGN.md §5) but not yet built in this tree; not claimed until it is"
-           for pid in ["C12", "C13", "C15", "C16", "C19"]}
+           for pid in ["C12", "C13", "C16", "C19"]}
